@@ -72,7 +72,7 @@ def frac_str(v: Fraction) -> str:
     while dd % 5 == 0:
         dd //= 5
         k5 += 1
-    if dd == 1:
+    if dd == 1 and max(k, k5) <= 12:
         digits = max(k, k5)
         s = f"{float(v):.{digits}f}"
         return s
